@@ -118,11 +118,48 @@ def lex(src):
 CODE = ("ident", "num", "punct", "str", "char", "lifetime")
 
 
+_GEN_CACHE = {}
+
+
+def generated_source(idl_rel):
+    """G1: `file=@gen:<idl>` -- the Rust code the repository's own generator (varlink_generator, built from the tree under test) emits for an
+    interface definition of the tree under test; regenerated on every run (this is what build.rs includes into the crate that uses it)."""
+    if idl_rel in _GEN_CACHE:
+        return _GEN_CACHE[idl_rel]
+    import subprocess
+    build = os.environ.get("VX_BUILD") or os.path.join(VERIF, "build")
+    tdir = os.path.join(build, "gen-target")
+    idl = os.path.join(REPO, idl_rel)
+    if not os.path.exists(idl):
+        raise ExtractError("interface definition %s missing" % idl_rel)
+    env = dict(os.environ, CARGO_NET_OFFLINE="true", CARGO_TARGET_DIR=tdir)
+    try:
+        b = subprocess.run(["cargo", "build", "--release", "--offline", "-q", "-p", "varlink_generator", "--bin", "varlink-rust-generator"],
+                           cwd=REPO, env=env, capture_output=True, text=True, timeout=1500)
+        if b.returncode != 0:
+            raise ExtractError("the generator of the tree under test does not build: " + b.stderr[-300:])
+        g = subprocess.run([os.path.join(tdir, "release", "varlink-rust-generator"), idl], capture_output=True, text=True, timeout=120)
+    except subprocess.TimeoutExpired:
+        raise ExtractError("generator build / run timed out")
+    if g.returncode != 0 or not g.stdout.strip():
+        raise ExtractError("the generator failed on %s: %s" % (idl_rel, g.stderr[-300:]))
+    # `r#name` and `name` are the same identifier unless `name` is a keyword: the prefix is dropped for non-keywords
+    kw = {"as", "break", "const", "continue", "crate", "else", "enum", "extern", "false", "fn", "for", "if", "impl", "in", "let", "loop", "match", "mod",
+          "move", "mut", "pub", "ref", "return", "self", "Self", "static", "struct", "super", "trait", "true", "type", "unsafe", "use", "where", "while",
+          "async", "await", "dyn", "abstract", "become", "box", "do", "final", "macro", "override", "priv", "typeof", "unsized", "virtual", "yield", "try", "gen"}
+    text = re.sub(r"\br#([A-Za-z_][A-Za-z0-9_]*)", lambda m: m.group(0) if m.group(1) in kw else m.group(1), g.stdout)
+    _GEN_CACHE[idl_rel] = text
+    return text
+
+
 class Src:
     def __init__(self, path):
         self.path = path
-        with open(os.path.join(REPO, path), encoding="utf-8") as f:
-            self.text = f.read()
+        if path.startswith("@gen:"):
+            self.text = generated_source(path[len("@gen:"):])
+        else:
+            with open(os.path.join(REPO, path), encoding="utf-8") as f:
+                self.text = f.read()
         self.toks = lex(self.text)
         self.code = [t for t in self.toks if t[0] in CODE]
 
@@ -644,7 +681,7 @@ class Unit:
 
     def src(self, path):
         if path not in self.srcs:
-            if not os.path.exists(os.path.join(REPO, path)):
+            if not path.startswith("@gen:") and not os.path.exists(os.path.join(REPO, path)):
                 raise ExtractError("source file %s missing" % path)
             self.srcs[path] = Src(path)
         return self.srcs[path]
